@@ -319,5 +319,47 @@ func VP_C01_Cli() {
 	zzvp.Assert(t.Exit == 0 && t.Out == "blob\n", "cat-file -t reports the kind")
 	p := zzvp.Run("cat-file", "-p", want)
 	zzvp.Assert(p.Exit == 0 && p.Out == string(content)+"\n", "cat-file -p returns exactly the stored bytes")
+	// several files in one call: each line is that file's own id (also for a repeated and for an empty file)
+	second := zzvp.Bytes("second", zzvp.Choose(2), "")
+	zzvp.WriteFile(w+"/g", second)
+	m := zzvp.Run("hash-object", "f", "g", "f")
+	zzvp.Assert(m.Exit == 0 && m.Out == want+"\n"+vpHex(vpBlobID(second))+"\n"+want+"\n", "hash-object prints, for every file named, the SHA-1 of 'blob <length>\\0<bytes>'")
+	vpOK(zzvp.Run("add", "g", "f"))
+	q := zzvp.Run("cat-file", "-p", vpHex(vpBlobID(second)))
+	zzvp.Assert(q.Exit == 0 && q.Out == string(second)+"\n", "cat-file -p returns exactly the stored bytes")
+	zzvp.Done()
+}
+
+// VP_C19_BranchFileCli: the current branch's file holds its 40 hex digits followed or preceded by stray bytes (a trailing
+// line break from an editor, a blank, a digit): commands either report the damage or work on the right commit; `commit`
+// never builds a new commit out of the damaged text.
+func VP_C19_BranchFileCli() {
+	vpInitRepo()
+	w, g := zzvp.Root(), vpG()
+	zzvp.WriteFile(w+"/f", []byte("1"))
+	vpOK(zzvp.Run("add", "f"))
+	vpOK(zzvp.Run("commit", "-m", "c1"))
+	c1, _, _ := vpBranch("main")
+	stray := zzvp.Bytes("stray", 1+zzvp.Choose(zzvp.Param("stray", 2)), "")
+	text := vpHex(c1) + string(stray)
+	if zzvp.Choose(2) == 1 {
+		text = string(stray) + vpHex(c1)
+	}
+	zzvp.WriteFile(g+"/refs/heads/main", []byte(text))
+	zzvp.WriteFile(w+"/f", []byte("2"))
+	a := zzvp.Run("add", "f")
+	zzvp.Assert(a.Exit == 0 || a.Exit == 1, "no command crashes on the damaged branch file")
+	r := zzvp.Run("commit", "-m", "c2")
+	zzvp.Assert(r.Exit == 0 || r.Exit == 1, "no command crashes on the damaged branch file")
+	if a.Exit == 0 && r.Exit == 0 {
+		tip, _, wf := vpBranch("main")
+		_, data, ok := vpReadObject(g, tip)
+		c := vpParseCommit(data)
+		const ident = "A U Thor <a@b.cd> "
+		zzvp.Assert(wf && ok && c.ok && len(c.parents) == 1 && string(c.parents[0]) == string(c1) && len(c.author) > len(ident) && c.author[:len(ident)] == ident && c.message == "c2",
+			"a commit made on top of a branch file that was accepted has exactly the stored commit as its parent and intact author and message")
+	}
+	l := zzvp.Run("log")
+	zzvp.Assert(l.Exit == 0 || l.Exit == 1, "no command crashes on the damaged branch file")
 	zzvp.Done()
 }
